@@ -235,7 +235,7 @@ func (w *world) recvLight(s core.Step) error {
 	orig := c.origBlock(lay, base, height)
 	lb := w.h.BuildLtBlock(orig)
 	cb := &cblock{id: id, orig: orig, hash: hex.EncodeToString(lb.GetHeader().GetHash()), height: height,
-		from: w.peers[id%len(w.peers)], gen: genuine(s)}
+		from: w.peers[1+id%3], gen: genuine(s)}
 	c.blocks[id] = cb
 	// malformations of the announcement
 	lb.Header.TxCount = int64(n)
@@ -358,7 +358,7 @@ func sameBlock(w *world, got, orig *types.Block) bool {
 // probe: is the receive path still serving well-formed light blocks, and is the loop iterating?
 func (w *world) probe() (map[string]any, error) {
 	c := w.conc
-	res := map[string]any{"alive": true, "recv": "?", "loop": "?"}
+	res := map[string]any{"alive": true, "recv": "?", "loop": "?", "val": "ok"}
 	_, _, _, _, _ = w.h.Topics(w.host.ID())
 	// A: one ordinary transaction, present in the pool -> posted on receipt
 	ta := c.newTx()
@@ -382,7 +382,7 @@ func (w *world) probe() (map[string]any, error) {
 	}
 	res["recv"] = w.lockedStatus(ca)
 	// B: its transaction never arrives -> pending, timeout, next iteration requests it from the sender
-	cbk, lbk := mk(c.newTx(), 5002, w.peers[1])
+	cbk, lbk := mk(c.newTx(), 5002, w.peers[4])
 	if err := w.deliverLight(lbk, cbk.from); err != nil {
 		return nil, err
 	}
@@ -395,6 +395,10 @@ func (w *world) probe() (map[string]any, error) {
 		return nil, err
 	}
 	res["loop"] = w.lockedStatus(cbk)
+	// the validator's reply-collecting loop (manageDeniedPeer) still iterates
+	if w.h.HasValidator() && !w.h.Tick(broadcast.VerifLoopDenied, stepWait) {
+		res["val"] = "stalled"
+	}
 	return res, nil
 }
 
